@@ -48,7 +48,13 @@ func (c *Config) getScannerConfig() scanner.Config {
 		CompactKey: getCompactKey(c.Prefix),
 		Tombstone:  tombStoneBytes,
 		TTL:        time.Second * time.Duration(eventsTTL),
+		TTLPrefix:  getEventsPrefix(c.Prefix),
 	}
+}
+
+// getEventsPrefix returns the directory of kubernetes Event records, the only keys that expire
+func getEventsPrefix(prefix string) []byte {
+	return []byte(prefix + string(events))
 }
 
 func (c *Config) complete() {
